@@ -8,6 +8,9 @@ import (
 
 	"github.com/muktihari/fit/decoder"
 	"github.com/muktihari/fit/encoder"
+	"github.com/muktihari/fit/profile/factory"
+	"github.com/muktihari/fit/profile/untyped/fieldnum"
+	"github.com/muktihari/fit/profile/untyped/mesgnum"
 	"github.com/muktihari/fit/proto"
 )
 
@@ -90,14 +93,14 @@ type writerAtDest struct{ c *destCore }
 type seekerDest struct{ c *destCore }
 type bothDest struct{ c *destCore }
 
-func (d plainDest) Write(p []byte) (int, error)                  { return d.c.write(p) }
-func (d writerAtDest) Write(p []byte) (int, error)               { return d.c.write(p) }
-func (d writerAtDest) WriteAt(p []byte, off int64) (int, error)  { return d.c.writeAt(p, off) }
-func (d seekerDest) Write(p []byte) (int, error)                 { return d.c.write(p) }
-func (d seekerDest) Seek(off int64, whence int) (int64, error)   { return d.c.seek(off, whence) }
-func (d bothDest) Write(p []byte) (int, error)                   { return d.c.write(p) }
-func (d bothDest) WriteAt(p []byte, off int64) (int, error)      { return d.c.writeAt(p, off) }
-func (d bothDest) Seek(off int64, whence int) (int64, error)     { return d.c.seek(off, whence) }
+func (d plainDest) Write(p []byte) (int, error)                 { return d.c.write(p) }
+func (d writerAtDest) Write(p []byte) (int, error)              { return d.c.write(p) }
+func (d writerAtDest) WriteAt(p []byte, off int64) (int, error) { return d.c.writeAt(p, off) }
+func (d seekerDest) Write(p []byte) (int, error)                { return d.c.write(p) }
+func (d seekerDest) Seek(off int64, whence int) (int64, error)  { return d.c.seek(off, whence) }
+func (d bothDest) Write(p []byte) (int, error)                  { return d.c.write(p) }
+func (d bothDest) WriteAt(p []byte, off int64) (int, error)     { return d.c.writeAt(p, off) }
+func (d bothDest) Seek(off int64, whence int) (int64, error)    { return d.c.seek(off, whence) }
 
 var kindNames = []string{"KPlain", "KWriterAt", "KSeeker", "KBoth"}
 
@@ -241,23 +244,32 @@ func (r *rng) genWritableChain() (encCfg, []encFile, []uint32) {
 			files = append(files, more[0])
 		}
 		files = files[:want]
+		if want > 1 && r.chance(1, 3) { // the same file again: equal data sizes, so a stream encoder's retained header needs no update
+			files[1] = encFile{hsize: files[0].hsize, proto: files[0].proto, profile: files[0].profile, msgs: cloneMessages(files[0].msgs)}
+			stat("chain_with_repeated_file", 1)
+		}
 		hs := byte(14)
 		if r.chance(1, 4) {
 			hs = 12
 		}
 		ec.headerSize = hs
 		continueTs := r.chance(1, 2)
+		sawTs := !continueTs && r.chance(1, 2) // back and forth inside a 45 s window: the dry run of a plain writer must make the same choices as the real run
 		ts := uint32(1000000000 + r.intn(100000))
 		for i := range files {
 			files[i].proto, files[i].profile, files[i].hsize = 0, 0, hs
 			if len(files[i].msgs) > 5 {
 				files[i].msgs = files[i].msgs[:5]
 			}
-			if continueTs {
+			if continueTs || sawTs {
 				for mi := range files[i].msgs {
 					for fi := range files[i].msgs[mi].Fields {
 						f := &files[i].msgs[mi].Fields[fi]
 						if f.Num == proto.FieldNumTimestamp && f.Value.Type() == proto.TypeUint32 {
+							if sawTs {
+								f.Value = proto.Uint32(ts + uint32(r.intn(46)))
+								continue
+							}
 							ts += uint32(r.intn(9))
 							f.Value = proto.Uint32(ts)
 						}
@@ -292,8 +304,21 @@ func c09(args []string) {
 		}
 	}
 	bufSizes := []int{-1, 0, 1, 7, 64, 4096}
-	for i := 0; i < n; i++ {
-		ec, files, ds := r.genWritableChain()
+	pats := tsPatternChains(r)
+	for i := -len(pats); i < n; i++ {
+		var ec encCfg
+		var files []encFile
+		var ds []uint32
+		if i < 0 { // deterministic corpus: timestamp orders that make a stale compression reference visible
+			ec, files = pats[i+len(pats)].ec, pats[i+len(pats)].files
+			var err error
+			if ds, err = chainDataSizes(ec, files); err != nil {
+				continue
+			}
+			stat("timestamp_pattern_chains", 1)
+		} else {
+			ec, files, ds = r.genWritableChain()
+		}
 		stat(fmt.Sprintf("chain_len_%d", len(files)), 1)
 		stat(fmt.Sprintf("header_size_%d", files[0].hsize), 1)
 		ref := runEncode(ec, files, 0, 4096, false, -1, 0, nil)
@@ -332,7 +357,7 @@ func c09(args []string) {
 		}
 		// destination that already holds bytes (an earlier file, or anything), cursor at its end, fresh encoder: plain, seekable and
 		// seekable+write-at destinations must append exactly the same bytes and leave what was there untouched
-		if i%2 == 0 {
+		if i >= 0 && i%2 == 0 {
 			pre := append([]byte(nil), ref.data...)
 			if r.chance(1, 3) {
 				pre = r.bytes(1 + r.intn(40))
@@ -359,7 +384,7 @@ func c09(args []string) {
 				}
 			}
 		}
-		if i < 2 {
+		if i >= 0 && i < 2 {
 			emit("SAMPLE", fmt.Sprintf("cfg {%s} chain %d -> %d bytes identical over 4 kinds x %d buffer sizes x batch/stream", ec.coq(), len(files), len(ref.data), len(bufSizes)))
 		}
 	}
@@ -445,4 +470,54 @@ func c11(args []string) {
 			emit("SAMPLE", fmt.Sprintf("cfg {%s} chain %d: every destination operation fails in turn x accept {0,1,5,all-1} x 4 kinds x 5 buffer sizes x batch/stream", ec.coq(), len(files)))
 		}
 	}
+}
+
+func chainDataSizes(ec encCfg, files []encFile) ([]uint32, error) {
+	_, wb, err := encodeChain(ec, files)
+	if err != nil {
+		return nil, err
+	}
+	var ds []uint32
+	for i := range wb {
+		var a, bb, c, d, e, f uint32
+		fmt.Sscanf(wb[i], "((%d, %d, %d, %d, %d), %d)", &a, &bb, &c, &d, &e, &f)
+		ds = append(ds, d)
+	}
+	return ds, nil
+}
+
+// tsPatternChains: records whose timestamps go back and forth across the 32 s reach of the compressed-timestamp reference, alone
+// and chained, with the compressed-timestamp header option (local message types 0..3) and without.
+func tsPatternChains(r *rng) []oddInput {
+	loadFactory()
+	base := uint32(1000000000)
+	patterns := [][]int{{10, 25, -10}, {1020, 1040, 1000, 1001}, {0, 10, 5, 6}, {31, 0, 32}, {0, 40, 8, 41}, {5, 5, 5}, {0, 31, 62, 30}, {100, 0, 33, 1}}
+	mk := func(p []int) []proto.Message {
+		msgs := []proto.Message{fileIdMesg(r)}
+		for k, off := range p {
+			m := proto.Message{Num: mesgnum.Record}
+			t := factory.CreateField(mesgnum.Record, proto.FieldNumTimestamp)
+			t.Value = proto.Uint32(uint32(int64(base) + int64(off)))
+			m.Fields = append(m.Fields, t)
+			h := factory.CreateField(mesgnum.Record, fieldnum.RecordHeartRate)
+			h.Value = proto.Uint8(uint8(60 + k))
+			m.Fields = append(m.Fields, h)
+			if k%2 == 1 { // a second shape, so that more than one local message type is in use
+				c := factory.CreateField(mesgnum.Record, fieldnum.RecordCadence)
+				c.Value = proto.Uint8(uint8(80 + k))
+				m.Fields = append(m.Fields, c)
+			}
+			msgs = append(msgs, m)
+		}
+		return msgs
+	}
+	var out []oddInput
+	for pi, p := range patterns {
+		for _, lt := range []byte{0, 3} {
+			ec := encCfg{headerSize: 14, protoVer: proto.V2, localTypes: lt, headerOpt: encoder.HeaderOptionCompressedTimestamp, bigEndian: pi%2 == 1}
+			out = append(out, oddInput{ec, []encFile{{hsize: 14, msgs: mk(p)}}})
+			out = append(out, oddInput{ec, []encFile{{hsize: 14, msgs: mk(p)}, {hsize: 14, msgs: mk(patterns[(pi+1)%len(patterns)])}}})
+		}
+	}
+	return out
 }
